@@ -189,6 +189,13 @@ def forms_rules(repo, rep):
     for q, me, want, txt in forms:
         f = m.func(q)
         rep.analysed(f)
+        rets_ = [r_ for r_ in ast.walk(f.node) if isinstance(r_, ast.Return) and r_.value is not None]
+        if q.endswith('.hp') and len(rets_) == 1 and stmt_text(rets_[0].value).replace(' ', '') == 'dec2hp(self.dec())':
+            # the HP number is produced by the decimal-to-HP conversion (rounding and carry included) from the object's decimal value:
+            # both factors have their own defining-form rules (X.dec above, dec2hp under R-DIGITS)
+            rep.holds('R-TABLE', 'R-TABLE::geodepy/angles.py::%s::positive' % q, where(f, f.node), '%s = dec2hp(self.dec()): typed dms/ddm -> dec -> hp' % q)
+            rep.holds('R-SIBLING', 'R-SIBLING::geodepy/angles.py::%s::sign' % q, where(f, f.node), '%s: the sign travels through dec() and dec2hp' % q)
+            continue
         got = ev.call_function(f, {'self': me})
         lv = ite_leaves(got) if isinstance(got, Rat) else []
         key = 'R-TABLE::geodepy/angles.py::%s' % q
@@ -751,9 +758,39 @@ def digit_rules(repo, rep):
             rep.holds('R-TABLE', key, where(init, init.node), '%s string form: %s = parts 0..%d' % (cname, ', '.join(fields), len(fields) - 1))
     # ---- sibling rule: every producer of an HP number from decimal degrees carries a seconds field that rounds to 60
     producer_carry_rules(repo, rep, m)
+    method_carry_rules(repo, rep, m)
     # ---- sibling rule: how positional fields are taken out of an HP number
     extraction_rules(repo, rep, m)
     rep.floor('R-DIGITS', 14, 'field cutting of hp2dec / hp2dms / hp2ddm per magnitude regime, assembly of dec2hp, field extraction of the hp2* functions')
+
+
+METHOD_CARRY_WITNESS = ('dec2dms(1.0833333333333333).hp() returned 1.046 (1 deg 04 min 60 s) on the code as found: dec2dms stores the seconds as 59.999999999999545 and the sum '
+                        'D + M/100 + S/10000 rounds them to 60; HPAngle(...) and hp2dec reject the value, so DMSAngle.hpa() raises')
+
+
+def method_carry_rules(repo, rep, m):
+    """the object methods that produce HP from stored sexagesimal fields (DMSAngle.hp, DDMAngle.hp): the fields come out of divmod (dec2dms,
+    dec2ddm) and may hold 59.9999999999 seconds; the HP number has to be produced with the rounding and carry of dec2hp (by delegating to it
+    or by testing the seconds against 60), not by the bare sum D + M/100 + S/10000"""
+    for cname in ('DMSAngle', 'DDMAngle'):
+        c = m.classes.get(cname)
+        f = c.methods.get('hp') if c is not None else None
+        if f is None:
+            continue
+        key = 'R-CARRY::geodepy/angles.py::%s.hp::seconds-carry' % cname
+        delegates = any(isinstance(n, ast.Call) and isinstance(n.func, ast.Name) and n.func.id in ('dec2hp', 'dec2hpa') for n in ast.walk(f.node))
+        tests = [n for n in ast.walk(f.node) if isinstance(n, ast.Compare) and isinstance(n.comparators[0], ast.Constant) and isinstance(n.comparators[0].value, (int, float))
+                 and 59.9 < n.comparators[0].value <= 60]
+        bare = [n for n in ast.walk(f.node) if isinstance(n, ast.BinOp) and isinstance(n.op, ast.Div) and isinstance(n.right, ast.Constant) and n.right.value in (100, 10000)]
+        if delegates:
+            rep.holds('R-CARRY', key, where(f, f.node), '%s.hp() produces the HP number through dec2hp (rounding and carry of the seconds)' % cname)
+        elif tests:
+            rep.holds('R-CARRY', key, where(f, tests[0]), '%s.hp() tests its seconds against 60 before assembling the HP number' % cname)
+        elif bare:
+            rep.violated('R-CARRY', key, where(f, bare[0]), '%s.hp() assembles D + M/100 + S/10000 from the stored fields without carrying a seconds field that rounds to 60: %s' % (
+                cname, METHOD_CARRY_WITNESS), expected='dec2hp(self.dec()) or an explicit carry', actual=stmt_text(bare[0])[:80])
+        else:
+            rep.undecided('R-CARRY', key, where(f, f.node), '%s.hp() is neither a delegation to dec2hp nor the positional sum' % cname)
 
 
 HP_WITNESS = 'hp2dms(259.02) = 259d 01m 99.99999999971s (259.0444 deg, 40" off 259d 02m 00s) because 259.02 * 1000 = 259019.99999999997'
@@ -883,7 +920,7 @@ def run(repo, rep):
 
 def controls(repo):
     out = []
-    out.append(('dms-hp-factor', text_variant(repo, 'geodepy/angles.py', "            return self.degree + (self.minute / 100) + (self.second / 10000)\n        else:\n            return -(self.degree + (self.minute / 100) + (self.second / 10000))",
-                                            "            return self.degree + (self.minute / 100) + (self.second / 10000)\n        else:\n            return -(self.degree + (self.minute / 100) + (self.second / 1000))"), 'DMSAngle.hp::sign'))
+    out.append(('dms-dec-factor', text_variant(repo, 'geodepy/angles.py', "            return -(self.degree + (self.minute / 60) + (self.second / 3600))",
+                                             "            return -(self.degree + (self.minute / 60) + (self.second / 360))"), 'DMSAngle.dec::sign'))
     out.append(('gon-composition', text_variant(repo, 'geodepy/angles.py', "    return dec2hp(gon2dec(gon))", "    return dec2hp(gon)"), 'gon2hp'))
     return out
